@@ -82,6 +82,19 @@ def build_sandbox(scratch):
             mk(r(nm, b"in<.txt"), b"IN:bdir")
         else:
             mk(r(nm), c)
+    # directories whose index file is a symbolic link: to a file outside every root, and to a file inside
+    os.makedirs(r(b"pub")); os.makedirs(r(b"pubin")); os.makedirs(r(b"sub", b"pub2"))
+    mk(r(b"pub", b"other.txt"), b"IN:pub-other")
+    os.symlink(b"../../secret.txt", r(b"pub", b"index.html"))
+    os.symlink(b"../a.txt", r(b"pubin", b"index.html"))
+    os.symlink(b"../../../outdir/o1.txt", r(b"sub", b"pub2", b"index.html"))
+    # entry names drawn from everything that matters inside markup, an attribute value or a URL
+    for i, nm in enumerate((b"it's here.txt", b"x' onmouseover='alert(1)", b'q"uote.txt', b"a&b.txt", b"a&amp;b.txt", b"l<t.txt", b"g>t.txt",
+                            b"sp ace.txt", b"pc%41.txt", b"pc%27.txt", b"q?m.txt", b"h#sh.txt", b"uni\xc3\xa9.txt", b"\xff\xfe.bin", b"!*().txt",
+                            b"'", b"'>", b"semi;colon=eq.txt", b"plus+.txt", b"back\\slash.txt", b"nl\nname.txt", b"~tilde-_..txt")):
+        mk(r(b"names", nm), b"IN:names-%d" % i)
+    os.makedirs(r(b"names", b"d'ir"))
+    os.makedirs(r(b"names", b"<i>dir"))
     os.symlink(b"sub", r(b"ln_in"))
     os.symlink(b"../outdir", r(b"ln_out"))
     os.symlink(b"../secret.txt", r(b"ln_file_out"))
@@ -107,6 +120,9 @@ def build_sandbox(scratch):
     mk(os.path.join(A1, b"sub", b"u.txt"), b"AL1:sub-u")
     mk(os.path.join(A1, b"deep", b"v.txt"), b"AL1:deep-v")
     mk(os.path.join(A1, b".dot1"), b"AL1:dot")
+    mk(os.path.join(A1, b"quo'te.txt"), b"AL1:quote")
+    os.makedirs(os.path.join(A1, b"pub"))
+    os.symlink(b"../../top.txt", os.path.join(A1, b"pub", b"index.html"))
     os.symlink(b"../root", os.path.join(A1, b"ln_root"))
     os.symlink(b"../secret.txt", os.path.join(A1, b"ln_secret"))
     A2 = j(b"al2")
@@ -139,7 +155,7 @@ def cfg_line(sym, lst, asy, root, aliases, index=IDX):
 NAMES = [b"a.txt", b"sub", b"sub2", b"inner", b"b.txt", b"c.txt", b"index.html", b".hidden", b".hdir", b"h.txt", b".dot",
          b"al", b"alX", b"ac", b"x.txt", b"y.txt", b"w.txt", b"deep", b"d.txt", b"ln_in", b"ln_out", b"ln_file_out", b"ln_file_in",
          b"ln_abs_in", b"ln_rootX", b"ln_al1", b"ln_dangling", b"ln_loop", b"ln_up", b"ln_upup", b"o1.txt", b"o2.txt",
-         b"secret.txt", b"outdir", b"rootX", b"rx.txt", b"root", b"al1", b"al2", b"top.txt", b"unlinked", b"u.txt", b"al1x", b"leak.txt", b"t1.txt", b"t2.txt", b"u.txt", b"v.txt",
+         b"secret.txt", b"outdir", b"rootX", b"rx.txt", b"root", b"al1", b"al2", b"top.txt", b"unlinked", b"u.txt", b"al1x", b"leak.txt", b"pub", b"pubin", b"pub2", b"names", b"it's here.txt", b"d'ir", b"other.txt", b"t1.txt", b"t2.txt", b"u.txt", b"v.txt",
          b"other", b"x", b"ln_root", b"ln_secret", b"fifo", b"sock", b"sockdir", b"empty", b"idxdir", b"q.txt", b"...", b"..x",
          b"t.txt", b"z.txt", b"we<ird>&'\"n.txt", b"sp ace.txt", b"\xff\xfe.bin", b"uni\xc3\xa9.txt", b"a+b%41.txt", b"<b>dir",
          b"in<.txt", b"amp&lt;.txt", b"q?x.txt", b"tab\tnl.txt", b"nosuch"]
@@ -237,7 +253,8 @@ MALFORMED = [b"/%", b"/%4", b"/%zz/a.txt", b"/a.txt%", b"/%2", b"/sub%2", b"/a%2
              b"/a.txt/..", b"/a.txt/../a.txt", b"/ln_dangling", b"/ln_loop", b"/ln_loop/", b"/%3cb%3edir/", b"/%3cb%3edir", b"/<b>dir/", b"/.../", b"/...",
              b"/..x/", b"/..x/t.txt", b"/%ff%fe.bin", b"/\xff\xfe.bin", b"/a.txt?/../../secret.txt", b"/?", b"/sub?x", b"/we%3Cird%3E%26%27%22n.txt",
              b"/q%3fx.txt", b"/tab%09nl.txt", b"/ln_abs_in/", b"/ln_abs_in/z.txt", b"/ln_in/b.txt", b"/ln_in", b"/ln_file_in", b"/root/a.txt", b"/../root/a.txt",
-             b"/../rootX/rx.txt", b"/..../", b"/sub/.../", b"/al/deep/al/t1.txt", b"/al/al/t1.txt", b"/al/deep/al/deep/v.txt", b"/al/deep/al/", b"/alX/al/t1.txt", b"/other/x/al/t1.txt",
+             b"/../rootX/rx.txt", b"/..../", b"/sub/.../", b"/pub/", b"/pub", b"/pub/index.html", b"/pubin/", b"/pubin", b"/sub/pub2/", b"/sub/pub2", b"/al/pub/", b"/al/pub",
+             b"/ln_in/pub2/", b"/names/", b"/names", b"/names/d%27ir/", b"/names/it%27s%20here.txt", b"/names/%3ci%3edir/", b"/al/deep/al/t1.txt", b"/al/al/t1.txt", b"/al/deep/al/deep/v.txt", b"/al/deep/al/", b"/alX/al/t1.txt", b"/other/x/al/t1.txt",
              b"/../top.txt", b"/../unlinked/u.txt", b"/../unlinked/", b"/al/x/leak.txt", b"/al/../al1x/leak.txt",
              b"/%2e%2e/top.txt", b"/sub/../../top.txt", b"/al/%2e%2e/%2e%2e/top.txt", b"/" + b"a/" * 3000, b"/" + b"../" * 2000 + b"secret.txt", b"/" + b"sub/ln_up/" * 400 + b"a.txt",
              b"/" + b"x" * 300, b"/sub/" + b"y" * 5000,
@@ -265,7 +282,7 @@ def py_urldecode(t):
     return bytes(out)
 
 
-ENUM_SEGS = [b"sub", b"..", b".", b"", b"ln_out", b"al", b"alX", b"a.txt", b"index.html", b"ln_up", b"deep", b"..%00"]
+ENUM_SEGS = [b"sub", b"..", b".", b"", b"ln_out", b"al", b"alX", b"a.txt", b"index.html", b"ln_up", b"deep", b"..%00", b"pub"]
 
 
 def enum_targets(depth):
@@ -532,7 +549,7 @@ def main():
             continue
         cases = [cl] + [f"cidr {hexs(f)} {tab}" for f, tab in zip(fnames, tabs[1:1 + len(fnames)])] + \
                 [f"req {hexs(t)} {tab}" for t, tab in zip(targets, tabs[1 + len(fnames):])]
-        canon = lambda o: o.split(" H")[0] if o.startswith("list ") else o
+        canon = lambda o: o
         rc_i, out_raw, err_i = c.run_lines(hbin, cases)
         rc_m, out_mr, err_m = c.run_lines(model, cases)
         out_i = [canon(o) for o in out_raw]
@@ -589,10 +606,8 @@ def main():
                 elif kind == "list":
                     if not lst:
                         viol.append(("directory listing produced although file_server.listing is off", {"stream": "req", "cfg": cfgkey, "case": short, "impl_output": o[:400]}))
-                    parts = o.split(" H")
-                    toks = parts[0].split()
+                    toks = o.split()
                     rows = toks[3:]
-                    hrefs = parts[1].split() if len(parts) > 1 else []
                     # the directories the table knows about: names a row may show
                     dtab = {}
                     for tok in w[2:]:
@@ -604,16 +619,16 @@ def main():
                     jl.append(f"J escaped {hexs(pinfo)} {toks[1]}")
                     jmeta.append((i, "listing title is not the HTML-escaped request path"))
                     rownames = set()
-                    for rtext in rows:
-                        if rtext == "badrow":
+                    for rraw in rows:
+                        if rraw == "badrow":
                             viol.append(("listing row does not parse (unescaped markup?)", {"stream": "req", "cfg": cfgkey, "case": short, "impl_output": o[:600]}))
                             continue
-                        jl.append(f"J row {dn} {rtext}")
-                        jmeta.append((i, "listing row is a dot-file, is not an entry of the directory, or is not properly HTML-escaped"))
-                        rownames.add(html_unescape(unhex(rtext)).rstrip(b"/"))
-                    for h in hrefs:
-                        if not re.fullmatch(rb"(?:[A-Za-z0-9_.~-]|%[0-9a-fA-F]{2})+/?", unhex(h)):
-                            viol.append(("listing href contains characters outside the url-safe set", {"stream": "req", "cfg": cfgkey, "case": short, "impl_output": o[:600]}))
+                        jl.append(f"J row {dn} {rraw}")
+                        jmeta.append((i, "listing row is not one well-formed anchor: attribute value not safe inside href='...' (a byte ends the attribute early / opens markup), "
+                                         "or text not the HTML-escaped name of a non-dot entry of the directory"))
+                        m_ = re.fullmatch(rb"<a href='([^']*)'>(.*)</a>", unhex(rraw), re.S)
+                        if m_:
+                            rownames.add(html_unescape(m_.group(2)).rstrip(b"/"))
                     # which recorded directory can this be a listing of?  none of the candidates may lie outside
                     cands = [d for d, ns in dtab.items() if rownames <= set(ns)]
                     if sym:
